@@ -27,8 +27,10 @@ RULE = ("maps are random Kraus families (A_i, B_i) with Gaussian-integer entries
         "choi_to_kraus: Choi matrices Hermitian-PSD / Hermitian-indefinite / non-Hermitian, square and rectangular in/out dims, exact residual of the "
         "defining relation <= 1e-8*max(1,|J|max) and #Kraus <= exact rank; chains Kraus->Choi->Kraus->Choi. A case is non-trivial when input and output "
         "spaces both have more than one entry and the rank/data are generic; distinct = hash of (function, form, dims, rank, kind, dtype). "
-        "Not generated (outside the quantifier, degenerate): Choi matrices that are row or column vectors (maps between spaces of kets), the zero map, "
-        "empty lists.")
+        "Not generated (outside the quantifier, degenerate; observed to misbehave and reported): Choi matrices that are row or column vectors (maps "
+        "between spaces of kets: swap/permute_systems takes its vector branch), Hermitian Choi matrices declared on a non-square operator space in "
+        "choi_to_kraus (dim=[[r,x],[c,y]] with r != c), flat/column/row (CP) lists together with a rectangular 2xn dim in partial_channel; also the zero "
+        "map and empty lists.")
 ASSUMPTIONS = [
     "two different polynomial maps of degree <= 3 agree on a random point of a box of side 2^6 per coordinate with probability <= 3/2^6 per case (Schwartz-Zippel); many independent cases per configuration class, and the thorough tier determines maps on the full E_ij basis",
     "choi_to_kraus is judged by the exact residual of its defining relation with tolerance 1e-8*scale (LAPACK eigh/svd)",
@@ -671,9 +673,10 @@ def run(ctx, model_ok=True):
                     grid.append(((d_in, d_in), (d_out, d_out), r))
         rng.shuffle(grid)
         for k, (din, dout, r) in enumerate(grid):
-            # every (d_in, d_out, rank) once as CP or non-CP, alternately real / complex
-            check_apply(ctx, din, dout, r, bool(k % 2), k % 3 != 0)
-        for it in range(140):
+            # every (d_in, d_out, rank) as CP and as non-CP, real and complex alternating
+            check_apply(ctx, din, dout, r, True, k % 3 != 0)
+            check_apply(ctx, din, dout, r, False, k % 3 != 1)
+        for it in range(300):
             din, dout = rand_dims2(rng, 4, 0.25)
             r = int(rng.integers(1, 6))
             check_apply(ctx, din, dout, r, din[0] == din[1] and dout[0] == dout[1] and bool(rng.integers(2)), bool(rng.integers(4)),
@@ -683,22 +686,23 @@ def run(ctx, model_ok=True):
             for d_out in range(1, 5):
                 for r in range(1, 6):
                     for cp in (True, False):
-                        for cplx in (True, False):
+                        for cplx in (True, False, True):
                             check_apply(ctx, (d_in, d_in), (d_out, d_out), r, cp, cplx)
         for di0, di1, do0, do1 in itertools.product(range(1, 5), repeat=4):
             if di0 == di1 and do0 == do1:
                 continue
-            for r in (1, 2, 3, 5):
+            for r in (1, 2, 3, 4, 5):
                 check_apply(ctx, (di0, di1), (do0, do1), r, False, bool(rng.integers(4)), "triples" if rng.integers(4) == 0 else None)
         # full E_ij basis determination of a few maps in all representations
-        for din, dout, r, cp in [((2, 2), (3, 3), 2, True), ((2, 3), (3, 2), 3, False), ((3, 3), (2, 2), 4, False)]:
+        for din, dout, r, cp in [((2, 2), (3, 3), 2, True), ((2, 3), (3, 2), 3, False), ((3, 3), (2, 2), 4, False), ((4, 4), (2, 2), 3, True),
+                                 ((3, 2), (2, 4), 5, False), ((1, 3), (3, 1), 2, False), ((4, 3), (3, 4), 2, False), ((3, 3), (3, 3), 5, True)]:
             sd = int(rng.integers(1 << 62))
             for i in range(din[0]):
                 for j in range(din[1]):
                     check_apply(ctx, din, dout, r, cp, True, basis=(i, j), seed=sd)      # same map, every basis input
-        ctx.extra["exhaustive_small_space"] = "apply/kraus_to_choi: full grid d_in,d_out in 1..4 (square), rank 1..5, CP/non-CP, real/complex; all rectangular (di0,di1,do0,do1) in 1..4 with ranks 1,2,3,5; E_ij bases for 3 maps"
+        ctx.extra["exhaustive_small_space"] = "apply/kraus_to_choi: full grid d_in,d_out in 1..4 (square), rank 1..5, CP/non-CP, real/complex; all rectangular (di0,di1,do0,do1) in 1..4 with ranks 1..5; E_ij bases for 8 maps; partial_channel: all dim vectors with entries 1..3 and product <= 27 for n = 2, 3, every target, every form"
     # ---- choi_to_kraus
-    n_c2k = 120 if quick else 1500
+    n_c2k = 300 if quick else 6000
     for it in range(n_c2k):
         kind = ["psd", "herm", "gen", "lowrank"][it % 4]
         if kind in ("psd", "herm"):
@@ -714,7 +718,7 @@ def run(ctx, model_ok=True):
                 dim_form = "vec"
         if kind != "gen" or True:
             check_choi_to_kraus(ctx, din, dout, kind, bool(rng.integers(4)), dim_form)
-    for it in range(80 if quick else 800):
+    for it in range(200 if quick else 4000):
         din, dout = rand_dims2(rng, 3, 0.6)
         r = int(rng.integers(1, 6))
         cp = din[0] == din[1] and dout[0] == dout[1] and bool(rng.integers(2))
@@ -729,7 +733,7 @@ def run(ctx, model_ok=True):
                 cases.append((dims, sys))
     rng.shuffle(cases)
     forms = ["flat", "column", "row", "pairs", "choi"]
-    for k, (dims, sys) in enumerate(cases if not quick else cases[:70]):
+    for k, (dims, sys) in enumerate(cases):
         for form in (forms if not quick else [forms[k % 5], forms[(k + 2) % 5]]):
             r = int(rng.integers(1, 4))
             if form == "row" and r == 2:
@@ -739,7 +743,7 @@ def run(ctx, model_ok=True):
             dout = (d, d) if cp or rng.integers(2) else (d, int(rng.integers(1, 4)))
             check_partial(ctx, dims, dims, sys, dout, r, form, bool(rng.integers(4)), str(rng.choice(["list", "array", "two"])))
     # rectangular dim arrays (pairs and Choi form)
-    for it in range(60 if quick else 600):
+    for it in range(150 if quick else 3000):
         n = int(rng.choice([2, 2, 3]))
         while True:
             rd = tuple(int(x) for x in rng.integers(1, 4, size=n))
@@ -751,16 +755,16 @@ def run(ctx, model_ok=True):
         check_partial(ctx, rd, cd, sys, dout, int(rng.integers(1, 4)), str(rng.choice(["pairs", "choi"])), bool(rng.integers(4)),
                       str(rng.choice(["two", "two_array"])))
     # default dim / default sys (two equal subsystems)
-    for it in range(16 if quick else 100):
+    for it in range(30 if quick else 300):
         d = int(rng.integers(2, 4))
         form = forms[it % 5]
         r = 3 if form == "row" else int(rng.integers(1, 4))
         check_partial(ctx, (d, d), (d, d), 2 if it % 2 else 1, (d, d) if it % 3 else (2, 2), r, form, True, "none", bool(it % 2))
     # ---- natural_representation
-    for it in range(60 if quick else 400):
+    for it in range(150 if quick else 2000):
         check_natural(ctx, int(rng.integers(1, 5)), int(rng.integers(1, 5)), int(rng.integers(1, 6)), bool(rng.integers(4)))
     # ---- channel_dim
-    for it in range(120 if quick else 800):
+    for it in range(300 if quick else 3000):
         form = str(rng.choice(["flat", "column", "row", "pairs", "choi"]))
         if form in ("flat", "column", "row"):
             a, b = int(rng.integers(1, 5)), int(rng.integers(1, 5))
